@@ -179,3 +179,63 @@ Section WithSearch.
     - intros ->. reflexivity.
   Qed.
 End WithSearch.
+
+(* ---- C03 at the sites: decisions depend on the metric name only -------- *)
+Section Sites.
+  Variable search : rx -> bytes -> bool.
+
+  Lemma send_all_name_only ds i l l' : name_of l = name_of l' -> send_all search ds i l = send_all search ds i l'.
+  Proof. intros H. rewrite !send_all_spec, H. reflexivity. Qed.
+
+  Lemma send_first_name_only ds i l l' : name_of l = name_of l' -> send_first search ds i l = send_first search ds i l'.
+  Proof. intros H. rewrite !send_first_spec, H. reflexivity. Qed.
+
+  Lemma aggregate_routes_name_only rs l l' :
+    name_of l = name_of l' ->
+    map fst (o_routes (dispatch_aggregate search rs l)) = map fst (o_routes (dispatch_aggregate search rs l')).
+  Proof.
+    intros H. destruct (dispatch_aggregate_routes search rs l) as [-> _].
+    destruct (dispatch_aggregate_routes search rs l') as [-> _].
+    rewrite !map_map, H. reflexivity.
+  Qed.
+
+  (* an aggregation consumes a point exactly when its complete filter accepts the name *)
+  Definition agg_takes (a : agg) (name : bytes) : bool :=
+    mpre (a_matcher a) name &&
+    (match m_regex (a_matcher a) with Some r => search r name | None => false end
+     && negb (match m_notRegex (a_matcher a) with Some r => search r name | None => false end)).
+
+  Lemma agg_takes_spec a name r :
+    m_regex (a_matcher a) = Some r ->
+    (forall s, search r s = true -> has_prefix (regex_to_prefix (rx_src r)) s = true) ->
+    agg_takes a name = spec_accept search (a_matcher a) name.
+  Proof.
+    intros Hr Hs. unfold agg_takes, mpre, pre_match, spec_accept. rewrite Hr.
+    destruct (nonempty (m_prefix (a_matcher a))); destruct (has_prefix (m_prefix (a_matcher a)) name); simpl; try reflexivity;
+    destruct (nonempty (m_notPrefix (a_matcher a))); destruct (has_prefix (m_notPrefix (a_matcher a)) name); simpl; try reflexivity;
+    destruct (nonempty (m_sub (a_matcher a))); destruct (contains (m_sub (a_matcher a)) name); simpl; try reflexivity;
+    destruct (nonempty (m_notSub (a_matcher a))); destruct (contains (m_notSub (a_matcher a)) name); simpl; try reflexivity;
+    (destruct (search r name) eqn:S1; simpl; [rewrite (Hs name S1), andb_false_r; reflexivity | rewrite andb_false_r; reflexivity]).
+  Qed.
+
+  Lemma agg_loop_consumed aggs i name j :
+    In j (fst (agg_loop search aggs i name)) ->
+    exists a, nth_error aggs (j - i) = Some a /\ i <= j /\ agg_takes a name = true.
+  Proof.
+    revert i; induction aggs as [|a aggs IH]; intros i; simpl; [intros []|].
+    unfold agg_takes at 1.
+    destruct (mpre (a_matcher a) name) eqn:P; simpl.
+    - set (takes := (match m_regex (a_matcher a) with Some r => search r name | None => false end
+                     && negb (match m_notRegex (a_matcher a) with Some r => search r name | None => false end))).
+      destruct (a_dropraw a).
+      + destruct takes eqn:T; simpl.
+        * intros [<-|[]]. exists a. rewrite Nat.sub_diag. repeat split; auto. unfold agg_takes. rewrite P. exact T.
+        * intros H. destruct (IH _ H) as [a' [Hn [Hl Ht]]]. exists a'. replace (j - i) with (S (j - S i)) by lia. auto with arith.
+      + destruct (agg_loop search aggs (S i) name) as [l d] eqn:EL. simpl. intros H. apply in_app_or in H as [H|H].
+        * destruct takes eqn:T; [|destruct H]. destruct H as [<-|[]]. exists a. rewrite Nat.sub_diag.
+          repeat split; auto. unfold agg_takes. rewrite P. exact T.
+        * specialize (IH (S i)). rewrite EL in IH. destruct (IH H) as [a' [Hn [Hl Ht]]]. exists a'.
+          replace (j - i) with (S (j - S i)) by lia. auto with arith.
+    - intros H. destruct (IH _ H) as [a' [Hn [Hl Ht]]]. exists a'. replace (j - i) with (S (j - S i)) by lia. auto with arith.
+  Qed.
+End Sites.
